@@ -30,20 +30,7 @@
 (lemma identsWFL-snoc :induction n (forall ((l Seq_Node) (x Node) (n Int)) (! (=> (<= n (Seq_Node.len l)) (= (identsWFL (Seq_Node.snoc l x) n) (identsWFL l n))) :pattern ((identsWFL (Seq_Node.snoc l x) n)))))
 (lemma exprWFL-snoc :induction n (forall ((l Seq_Node) (x Node) (n Int)) (! (=> (<= n (Seq_Node.len l)) (= (exprWFL (Seq_Node.snoc l x) n) (exprWFL l n))) :pattern ((exprWFL (Seq_Node.snoc l x) n)))))
 
-; ---- expressions as the parser delivers them: well-formed, span-safe, with a valid span inside the source
 (define-fun spanIn ((source Str) (x Node)) Bool (and (spanValid (SpanOf x)) (<= (Span.End (SpanOf x)) (Str.len source))))
-(define-fun-rec exprOK ((s Str) (x Node)) Bool (and (exprWF x) (spanSafe x) (spanIn s x)))
-(define-fun-rec exprsOK ((s Str) (l Seq_Node) (n Int)) Bool
-  (ite (<= n 0) true (and (exprsOK s l (- n 1)) (exprOK s (Seq_Node.nth l (- n 1))))))
-(lemma exprsOK-parts :induction n (forall ((s Str) (l Seq_Node) (n Int)) (! (=> (exprsOK s l n) (and (exprWFL l n) (spanSafeList l n) (spansInL (Str.len s) l n))) :pattern ((exprsOK s l n)))))
-(lemma exprsOK-snoc :induction n (forall ((s Str) (l Seq_Node) (x Node) (n Int)) (! (=> (<= n (Seq_Node.len l)) (= (exprsOK s (Seq_Node.snoc l x) n) (exprsOK s l n))) :pattern ((exprsOK s (Seq_Node.snoc l x) n)))))
-(lemma exprsOK-nth :induction n (forall ((s Str) (l Seq_Node) (n Int) (i Int)) (! (=> (and (exprsOK s l n) (<= 0 i) (< i n)) (exprOK s (Seq_Node.nth l i))) :pattern ((exprsOK s l n) (Seq_Node.nth l i)))))
-(define-fun identOK ((s Str) (id Node)) Bool (and ((_ is mk_Ident) id) (spanValid (Ident.NameSpan id)) (<= (Span.End (Ident.NameSpan id)) (Str.len s))))
-(define-fun-rec identsOK ((s Str) (l Seq_Node) (n Int)) Bool
-  (ite (<= n 0) true (and (identsOK s l (- n 1)) (identOK s (Seq_Node.nth l (- n 1))))))
-(lemma identsOK-parts :induction n (forall ((s Str) (l Seq_Node) (n Int)) (! (=> (identsOK s l n) (and (identsWFL l n) (spanSafeList l n) (spansInL (Str.len s) l n))) :pattern ((identsOK s l n)))))
-(lemma identsOK-snoc :induction n (forall ((s Str) (l Seq_Node) (x Node) (n Int)) (! (=> (<= n (Seq_Node.len l)) (= (identsOK s (Seq_Node.snoc l x) n) (identsOK s l n))) :pattern ((identsOK s (Seq_Node.snoc l x) n)))))
-(lemma identsOK-first (forall ((s Str) (l Seq_Node) (n Int)) (! (=> (and (identsOK s l n) (> n 0)) (spanValid (SpanOfList l n))) :pattern ((identsOK s l n) (SpanOfList l n)))))
 ; a literal row count must be an integer literal (C13); any other expression is accepted
 (define-fun rowCountOK ((x Node)) Bool
   (=> ((_ is mk_BasicLit) x) (and (= (BasicLit.Kind x) TokenNumber) (not (strings.ContainsAny (BasicLit.Value x) ".eE")))))
